@@ -97,7 +97,7 @@ func allMsgCases() []msgCase {
 	}
 	out = append(out, mc("unknown", "missing", na, na, na, na, na, false))
 	for _, t := range []string{"empty", "garbage", "oversize", "trunc"} {
-		out = append(out, mc(t, na, na, na, na, na, na, t == "trunc"))
+		out = append(out, mc(t, na, na, na, na, na, na, t == "trunc" || t == "oversize"))
 	}
 	return out
 }
@@ -257,7 +257,7 @@ func plan(seed int64, tier string) []traceSpec {
 		for _, kind := range ks {
 			t := traceSpec{Kind: kind, Have0: have0(kind, rng), Known: k.id, Group: "known"}
 			if k.m != nil {
-				t.Steps = []step{{Op: "hs", H: vb([]string{"in", "out"}[rng.Intn(2)], "exact_some", "none")}, {Op: "msg", M: *k.m}}
+				t.Steps = []step{{Op: "hs", H: vb([]string{"in", "out"}[(i+len(out))%2], "exact_some", "none")}, {Op: "msg", M: *k.m}}
 			} else {
 				t.Steps = []step{{Op: "hs", H: *k.h}}
 			}
